@@ -345,6 +345,89 @@ Proof.
   rewrite Hdec. destruct (IH (cur + bf_bits f) ltac:(lia) Hr) as [rest Hrest]. rewrite Hrest. eauto.
 Qed.
 
+(* unshifted bit fields *)
+Lemma wf_bfields_u_nonneg fs : forall cur, wf_bfields_u fs cur = true -> 0 <= sum_bits fs.
+Proof.
+  induction fs as [|f r IH]; intros cur; cbn [wf_bfields_u sum_bits fold_right]; [lia|].
+  intros H. apply andb_true_iff in H. destruct H as [H Hr].
+  apply andb_true_iff in H. destruct H as [H _]. apply andb_true_iff in H. destruct H as [Hb _].
+  apply Z.leb_le in Hb. specialize (IH _ Hr). fold (sum_bits r). lia.
+Qed.
+
+Lemma shifted_range raw b cur : 0 <= cur -> 0 <= raw <= mask b ->
+  0 <= Z.shiftl raw cur <= Z.shiftl (mask b) cur.
+Proof.
+  intros Hc Hr. rewrite !Z.shiftl_mul_pow2 by lia.
+  assert (0 < 2 ^ cur) by (apply Z.pow_pos_nonneg; lia). nia.
+Qed.
+
+Lemma shifted_fits raw b cur : 0 <= cur -> 0 <= b -> raw = Z.land raw (mask b) ->
+  Z.shiftl raw cur = Z.land (Z.shiftl raw cur) (Z.shiftl (mask b) cur).
+Proof. intros Hc Hb Hr. rewrite <- Z.shiftl_land. now rewrite <- Hr. Qed.
+
+Lemma bf_pack_unpack_u pod z : forall fs cur d pre acc,
+  0 <= cur ->
+  wf_bfields_u fs cur = true ->
+  distinct (map bf_name fs) = true ->
+  (forall f, In f fs -> existsb (name_eqb (bf_name f)) (map fst pre) = false) ->
+  bf_unpack false fs cur pod z = Some d ->
+  bf_pack false fs cur (pre ++ d) acc =
+  Some (Z.lor acc (Z.shiftl (Z.land (Z.shiftr z cur) (Z.ones (sum_bits fs))) cur)).
+Proof.
+  induction fs as [|f r IH]; intros cur d pre acc Hc Hwf Hd Hpre Hu.
+  - cbn [bf_pack sum_bits fold_right]. cbn [Z.ones]. rewrite Z.land_0_r, Z.shiftl_0_l, Z.lor_0_r. reflexivity.
+  - cbn [bf_unpack] in Hu. cbn [wf_bfields_u] in Hwf. apply andb_true_iff in Hwf. destruct Hwf as [Hf Hr].
+    pose proof (wf_bfields_u_nonneg r _ Hr) as Hsr.
+    apply andb_true_iff in Hf. destruct Hf as [Hf Hwa].
+    apply andb_true_iff in Hf. destruct Hf as [Hb Htot]. apply Z.leb_le in Hb.
+    cbn [map distinct] in Hd. apply andb_true_iff in Hd. destruct Hd as [Hnot Hd].
+    apply negb_true_iff in Hnot.
+    set (raw := Z.land (Z.shiftr z cur) (mask (bf_bits f))) in *.
+    assert (Hraw : 0 <= raw <= mask (bf_bits f))
+      by (unfold raw; apply land_ones_range; lia).
+    assert (Hidem : raw = Z.land raw (mask (bf_bits f)))
+      by (unfold raw; now rewrite <- Z.land_assoc, Z.land_diag).
+    pose proof (shifted_range raw (bf_bits f) cur Hc Hraw) as Hsh.
+    destruct (adapter_lossless (bf_adapter f) 0 _ pod (Z.shiftl raw cur) Htot Hwa Hsh) as [v [Hdec Henc]].
+    rewrite Hdec in Hu.
+    destruct (bf_unpack false r (cur + bf_bits f) pod z) as [rest|] eqn:Hrest; [|discriminate].
+    inversion Hu; subst d; clear Hu.
+    cbn [bf_pack]. rewrite (dict_get_app_notin pre (bf_name f) v rest (Hpre f (or_introl eq_refl))).
+    rewrite Henc.
+    rewrite <- (shifted_fits raw (bf_bits f) cur Hc Hb Hidem), Z.eqb_refl. cbn [negb].
+    replace (pre ++ (bf_name f, v) :: rest) with ((pre ++ [(bf_name f, v)]) ++ rest)
+      by (now rewrite <- app_assoc).
+    rewrite (IH (cur + bf_bits f) rest (pre ++ [(bf_name f, v)]) _ ltac:(lia) Hr Hd).
+    + f_equal. rewrite <- Z.lor_assoc. f_equal.
+      cbn [sum_bits fold_right]. fold (sum_bits r).
+      unfold raw. rewrite mask_ones. apply split_bits; lia.
+    + intros g Hg. rewrite map_app, existsb_app. cbn [map fst existsb].
+      rewrite (Hpre g (or_intror Hg)), orb_false_r. cbn [orb].
+      destruct (name_eqb (bf_name g) (bf_name f)) eqn:E2; [|reflexivity].
+      apply name_eqb_eq in E2.
+      assert (existsb (name_eqb (bf_name f)) (map bf_name r) = true).
+      { apply existsb_exists. exists (bf_name g). split; [now apply in_map|].
+        rewrite E2. apply name_eqb_refl. }
+      congruence.
+    + exact Hrest.
+Qed.
+
+Lemma bf_unpack_total_u pod z : forall fs cur,
+  0 <= cur -> wf_bfields_u fs cur = true ->
+  exists d, bf_unpack false fs cur pod z = Some d.
+Proof.
+  induction fs as [|f r IH]; intros cur Hc Hwf; cbn [bf_unpack]; [eauto|].
+  cbn [wf_bfields_u] in Hwf. apply andb_true_iff in Hwf. destruct Hwf as [Hf Hr].
+  apply andb_true_iff in Hf. destruct Hf as [Hf Hwa].
+  apply andb_true_iff in Hf. destruct Hf as [Hb Htot]. apply Z.leb_le in Hb.
+  set (raw := Z.land (Z.shiftr z cur) (mask (bf_bits f))).
+  assert (Hraw : 0 <= raw <= mask (bf_bits f))
+    by (unfold raw; apply land_ones_range; lia).
+  pose proof (shifted_range raw (bf_bits f) cur Hc Hraw) as Hsh.
+  destruct (adapter_lossless (bf_adapter f) 0 _ pod (Z.shiftl raw cur) Htot Hwa Hsh) as [v [Hdec _]].
+  rewrite Hdec. destruct (IH (cur + bf_bits f) ltac:(lia) Hr) as [rest Hrest]. rewrite Hrest. eauto.
+Qed.
+
 (* ------------------------------------------------ the registered serializers *)
 Lemma wire_range_unsigned t z :
   wsigned t = false -> in_wire_range t z -> 0 <= z < 2 ^ wbits t.
@@ -399,7 +482,20 @@ Proof.
     + inversion Hdec; subst; exact He.
     + inversion Hdec; subst; exact He.
   - (* bitfield dataclass *)
-    destruct shift; [|discriminate].
+    destruct shift.
+    2:{ apply andb_true_iff in Hok. destruct Hok as [Hok Hwf].
+        apply andb_true_iff in Hok. destruct Hok as [Hok Hdis].
+        apply andb_true_iff in Hok. destruct Hok as [Hsg Hsum].
+        apply negb_true_iff in Hsg. apply Z.eqb_eq in Hsum.
+        pose proof (wire_range_unsigned t z Hsg Hz) as Hr.
+        cbn [s_deserialize].
+        destruct (bf_unpack_total_u pod z fs 0 ltac:(lia) Hwf) as [d Hd]. rewrite Hd.
+        cbn [option_map s_serialize].
+        pose proof (bf_pack_unpack_u pod z fs 0 d [] 0 ltac:(lia) Hwf Hdis (fun _ _ => eq_refl) Hd) as Hp.
+        cbn [app] in Hp. rewrite Hp.
+        rewrite Z.lor_0_l, Z.shiftl_0_r, Z.shiftr_0_r, Hsum.
+        rewrite Z.land_ones by (destruct t; cbn; lia).
+        rewrite Z.mod_small by lia. reflexivity. }
     apply andb_true_iff in Hok. destruct Hok as [Hok Hwf].
     apply andb_true_iff in Hok. destruct Hok as [Hok Hdis].
     apply andb_true_iff in Hok. destruct Hok as [Hsg Hsum].
